@@ -29,7 +29,8 @@ def f32(x):
 
 AXES = dict(
     n=[16, 8], shift=[(2, -1), (0, 0), (2, 0), (0, -1)], fill=[[1e-3], [1e-3, 2e-3], [1e-3, 0, 2e-3]], outstep=[2, 1, 3, 5], save=[1, 0, 2],
-    rot=[1.0, 0.5, 1.375, 1.3, 0.7], imp=["collimator", "none", "csr"], track=[False, True], renorm=[0, -1, 2])
+    rot=[1.0, 0.5, 1.375, 1.3, 0.7], imp=["collimator", "none", "csr"], track=[False, True], renorm=[0, -1, 2],
+    ring=["default", "R=5.559,H=184,V=1.4e6,E=2.5e9", "pq=10,F=2.7e6"])
 IMP = {"none": ["-G", 0], "collimator": ["-G", -0.03, "--UseCSR", "false", "--CollimatorRadius", 0.002], "csr": ["-G", -0.03]}
 FS = 9e5    # synchrotron frequency dialled so that the bucket spacing is 1.39 phase spaces (keeps the multi-bunch transform short)
 
@@ -58,6 +59,11 @@ def args_of(c, trackfile):
     a = ["-s", c["n"], "-N", NPER, "-T", c["rot"], "-n", c["outstep"], "--SavePhaseSpace", c["save"], "--padding", 2, "-f", FS, "-d", 2e-5,
          "--PhaseSpaceShiftX", c["shift"][0], "--PhaseSpaceShiftY", c["shift"][1], "--RenormalizeCharge", c["renorm"], "--InitialDistZoom", 0.9]
     a += IMP[c["imp"]]
+    if c.get("ring", "default") != "default":
+        m = {"R": "--BendingRadius", "H": "--HarmonicNumber", "V": "--AcceleratingVoltage", "E": "--BeamEnergy", "pq": "--PhaseSpaceSize", "F": "--RevolutionFrequency"}
+        for kv in c["ring"].split(","):
+            k, v = kv.split("=")
+            a += [m[k], v]
     if c["track"]:
         a += ["--tracking", trackfile, "--FPTrack", 1]
     a += ["-I"] + c["fill"]
